@@ -101,9 +101,17 @@ def handle (args : List String) (impl : String) : R Ans :=
         let fwd := (reads.flatMap fun r => windowsOf K r.1)
         let keys := t0.map (·.key)
         let cnt := fun (x : Seq) => min (fwd.count x) 65535
+        -- stranded graphs: a k-mer and its reverse complement are never identified, so palindromes are ordinary k-mers:
+        -- the three pipelines must produce the maximal unbranched paths of the forward links
+        let T := Filter.removeCensoredExts true t0
+        let d0 ← parseNodes (get "d0")
         pure (if ¬ keys.all (fun x => fwd.contains x) then "FAIL:stranded-table-contains-a-kmer-not-in-the-reads"
               else if ¬ (fwd.all fun x => cnt x < thr || keys.contains x) then "FAIL:stranded-table-misses-a-forward-kmer"
               else if ¬ t0.all (fun e => e.data == [cnt e.key]) then "FAIL:stranded-count"
+              else if ¬ partitionOK K true T d0 then "FAIL:stranded-graph-is-not-a-partition-of-the-forward-kmers"
+              else if ¬ componentsOK K true (fun _ _ => true) T d0 then "FAIL:stranded-graph-identifies-or-splits-at-a-reverse-complement"
+              else if pd0.map (·.1) ≠ pr0.map (·.1) ∨ pd0.map (·.1) ≠ ps0.map (·.1) then "FAIL:stranded-pipelines-disagree"
+              else if pd1.map (·.1) ≠ pr1.map (·.1) ∨ pd1.map (·.1) ≠ ps1.map (·.1) then "FAIL:stranded-pipelines-disagree"
               else "ok")
       else
         let nonPal := fun (e : Entry (List Nat)) => e.key != Compress.rc e.key
